@@ -26,8 +26,8 @@ Fixpoint rounds_eqb (a b : list (Z * Z)) : bool :=
   | _, _ => false
   end.
 
-(* which sub-protocols work in the harness runs: CLAIMTOBE and FS do, PASSWORD is a stub *)
-Definition run_aok (m : meth) : bool := match m with mCTB | mFS => true | _ => false end.
+(* which sub-protocols work in the harness runs: CLAIMTOBE, FS and (with token material) TOKEN/IDTOKENS do; PASSWORD is a stub *)
+Definition run_aok (m : meth) : bool := match m with mCTB | mFS | mTOK | mIDT => true | _ => false end.
 
 Definition lvl_of (n : N) : lvl :=
   match n with 0%N => Rq | 1%N => Pf | 2%N => Op | 3%N => Nv | _ => Ot end.
